@@ -161,6 +161,10 @@ class Engine:
         self.max_samples = 4
         self.base_asserted = set()
         self.terms_by_id = {}
+        self.xcheck_every = 0        # concolic cross-check of every n-th completed path (0 = off)
+        self.xchecks = 0
+        self.real_models = []        # models of completed paths handed to the runner for real-OS validation
+        self.real_models_wanted = 0
         Engine.cur = self
 
     # ------------------------------------------------------------ solver
@@ -500,8 +504,11 @@ class Engine:
         self.fn_apps = {}
         self.solver.push()
         try:
+            nviol = sum(v['count'] for v in self.violations.values())
             harness(self)
             self.stats.paths_completed += 1
+            if nviol == sum(v['count'] for v in self.violations.values()):
+                self._after_clean_path(harness)
         except PathAbort:
             self.stats.paths_aborted += 1
         except PathEnd:
@@ -511,6 +518,30 @@ class Engine:
         self.stats.paths += 1
         if len(self.trail) > self.stats.max_decisions_on_path:
             self.stats.max_decisions_on_path = len(self.trail)
+
+    def _after_clean_path(self, harness):
+        """Concolic cross-check: re-run the harness without proxies on a concrete
+        instance of this path's model (in-memory model FS); every obligation must
+        hold there too.  A failure means a proxy or the engine is wrong: harness
+        error, never a verdict."""
+        n = self.stats.paths_completed
+        want_real = len(self.real_models) < self.real_models_wanted
+        do_x = bool(self.xcheck_every) and (n <= 10 or n % self.xcheck_every == 0)
+        if not want_real and not do_x:
+            return
+        model = self.model_dict(self._replayable_model(None))
+        if want_real:
+            self.real_models.append({'model': model, 'path_info': dict(self.path_info)})
+        if do_x:
+            from .concrete import ConcreteEngine
+            ce = ConcreteEngine(model)
+            ce.sandbox = None
+            ce.run(harness)
+            Engine.cur = self
+            self.xchecks += 1
+            if ce.failures:
+                raise HarnessError('concolic cross-check failed (proxy/engine bug?): %r with model %r'
+                                   % (ce.failures[:2], {k: v for k, v in list(model.items())[:40]}))
 
     def explore(self, harness, max_paths=None, deadline=None):
         Engine.cur = self
